@@ -152,7 +152,8 @@ func prefixPostfix(w *eng.W, leg string, ops []string, f func(leg string, src []
 
 // listForms: delimited lists with every separator / spread placement.
 func listForms(w *eng.W, leg string, f func(leg string, src []byte)) {
-	items := []string{"a", "-a", "!!a", "...", "", "$x = 1", "a ? b : c"}
+	// (lists inside elements: a parenthesised sequence is ONE element, a list or call inside an element keeps its own commas)
+	items := []string{"a", "-a", "!!a", "...", "", "$x = 1", "a ? b : c", "(a, b)", "((a, b), c)", "[a, b]", "g(a, b)", "(g(a, b), c)", "(a, b)..."}
 	seps := []string{",", " ", ",,", ", "}
 	wrappers := [][2]string{{"[", "]"}, {"f(", ")"}, {"a.b(", ")"}, {"[", ""}, {"f(", ""}}
 	ni, ns := len(items), len(seps)
